@@ -7,6 +7,7 @@ Oracle  : exact global extremes of |B(t) - z|^2 on [0,1]: the real roots of its 
           (critical points and end points) are evaluated exactly.
 """
 import math
+import random
 from fractions import Fraction as F
 
 import numpy as np
@@ -28,7 +29,7 @@ ASSUMPTIONS = ['vt/ref/exact.py (Sturm isolation, exact evaluation) is right',
 TIERS = {
     'quick': {'shards': 14, 'random': 12000, 'timeout': 600, 'min_cases': 8000,
               'require_branches': ['z:on-curve', 'z:far', 'z:near', 'z:centre-of-curvature', 'z:beyond-end',
-                                   'kind:path', 'extreme:interior-min', 'extreme:endpoint-min', 'requery-after-mutation']},
+                                   'kind:path', 'extreme:interior-min', 'extreme:endpoint-min', 'requery-after-mutation', 'requery-path-after-edit']},
     'thorough': {'shards': 14, 'random': 400000, 'timeout': 3000, 'min_cases': 200000,
                  'require_branches': ['z:on-curve', 'z:far', 'z:near', 'z:centre-of-curvature', 'z:beyond-end',
                                       'kind:path', 'extreme:interior-min', 'extreme:endpoint-min']},
@@ -312,6 +313,25 @@ def run_case(ctx, case):
         p.radialrange(z)
         P.closest_point_in_path(z, p)
         P.farthest_point_in_path(z, p)
+        # the same path, the same query point, after an edit through the Path's own interface
+        ctx.branch('requery-path-after-edit')
+        rng = random.Random(repr(case['z']))
+        d = (complex(p[0].end) - complex(p[0].start)) or 1 + 1j
+        how = rng.choice(['start=', 'end=', 'setitem', 'append', 'del'])
+        if how == 'start=':
+            p.start = complex(p.start) - 2.5 * d
+        elif how == 'end=':
+            p.end = complex(p.end) + 3.5j * d
+        elif how == 'setitem':
+            k = rng.randrange(len(p))
+            p[k] = P.Line(p[k].start + 2j * d, p[k].end - 1.5 * d)
+        elif how == 'append':
+            p.append(P.Line(p.end, complex(p.end) + 4 * d))
+        elif len(p) > 1:
+            del p[rng.randrange(len(p))]
+        P.closest_point_in_path(z, p)
+        P.farthest_point_in_path(z, p)
+        p.radialrange(z)
 
 
 def crash_key(ctx, case, e, site):
